@@ -10,7 +10,15 @@
     * `occursArm`: which children of which constructor the occurs check
       searches;
     * `setGuard`: whether an `if self.occurs(v, &t) { return None; }` stands in
-      front of each `unionfind.set(v, t)` of `unify_inner`.
+      front of each `unionfind.set(v, t)` of `unify_inner`;
+    * `innerNeverArm`: whether `unify_inner` has the arm
+      `(Never, x) | (x, Never) => x` (it had; since the repair of the never type
+      it has not: `!` is handled at the entry point only);
+    * `entryNeverFound`: whether `unify(expected a, found b)` — the only caller
+      of `unify_inner` (checked by the translator) — returns `resolve_type(a)`
+      straight away when `resolve_type(b)` is `!`.
+  Both are PARAMETERS of the model (`N`, `T`): the theorems hold for either
+  value, the check instantiates them with what the source has now.
   The model CALLS these generated functions; the theorems need them to be what
   the specification below (`subVars`, `out`) says (`Lemmas/Unify.lean`:
   `occursArm_complete`, `guards_ok`, …) — a dropped arm breaks those proofs.
@@ -28,7 +36,7 @@
 
   One model-level assertion: in the arms that bind a RECORD variable after
   `unify_fields`, the model gives up (`none`) if that variable is no longer
-  unset at that point (see `unify`).
+  unset at that point (see `unifyInner`).
 
   Core Lean only (no Mathlib): linked into the driver executable.
 -/
@@ -214,11 +222,21 @@ def afterFields (res : Option (Bool × Store)) (k : Store → Option (Option Ty 
   | some (false, σ1) => some (none, σ1)
   | some (true, σ1) => k σ1
 
+/-- the arm `(Never, x) | (x, Never) => x` of `unify_inner`, if the source has
+it (`N`): `some x` = the arm matches -/
+def neverArm (N : Bool) (a b : Ty) : Option Ty :=
+  if N then
+    match a, b with
+    | .never, x => some x
+    | x, .never => some x
+    | _, _ => none
+  else none
+
 mutual
 /-- `unify_inner(a, b)`: `none` = no answer; `some (None, σ')` = the types do
 not unify (the store may have been changed on the way: the error message is
 then rendered from `σ'`); `some (Some t, σ')` = unified. -/
-def unify (G : SetArm → Guard) (D : Defs) : Nat → Store → Ty → Ty → Option (Option Ty × Store)
+def unifyInner (G : SetArm → Guard) (N : Bool) (D : Defs) : Nat → Store → Ty → Ty → Option (Option Ty × Store)
   | 0, _, _, _ => none
   | f + 1, σ, a0, b0 =>
     match resolveType f σ a0, resolveType f σ b0 with
@@ -227,8 +245,11 @@ def unify (G : SetArm → Guard) (D : Defs) : Nat → Store → Ty → Ty → Op
       match a, b with
       | .explicitVar _, _ => none                       -- ice!
       | _, .explicitVar _ => none                       -- ice!
-      | .never, x => some (some x, σ)
-      | x, .never => some (some x, σ)
+      | _, _ =>
+      match neverArm N a b with                         -- `(Never, x) | (x, Never) => x`, if it is there
+      | some x => some (some x, σ)
+      | none =>
+      match a, b with
       | .intVar x sx, .intVar y sy =>                   -- unify_intvars
         if sx = true ∧ sy = false then bind G .intInt f σ y (.intVar x sx)
         else bind G .intInt f σ x (.intVar y sy)
@@ -252,33 +273,33 @@ def unify (G : SetArm → Guard) (D : Defs) : Nat → Store → Ty → Ty → Op
       | .var x, t => bind G .varLeft f σ x t
       | t, .var y => bind G .varRight f σ y t
       | .recordVar av an aty, .recordVar bv bn bt =>
-        afterFields (unifyFields G D f σ an aty bn bt) fun σ1 =>
+        afterFields (unifyFields G N D f σ an aty bn bt) fun σ1 =>
           -- model-level assertion: `av` is still unset
           if isRootB σ1 av then bind G .recRec f σ1 av (.recordVar bv bn bt) else none
       | .recordVar av an aty, .record bn bt =>
-        afterFields (unifyFields G D f σ an aty bn bt) fun σ1 =>
+        afterFields (unifyFields G N D f σ an aty bn bt) fun σ1 =>
           if isRootB σ1 av then bind G .recRecord f σ1 av (.record bn bt) else none
       | .record an aty, .recordVar bv bn bt =>
-        afterFields (unifyFields G D f σ an aty bn bt) fun σ1 =>
+        afterFields (unifyFields G N D f σ an aty bn bt) fun σ1 =>
           if isRootB σ1 bv then bind G .recordRec f σ1 bv (.record an aty) else none
       | .recordVar v fn ft, .name n args =>
         match D.recordFields n args with
         | none => some (none, σ)
         | some (nn, nt) =>
-          afterFields (unifyFields G D f σ fn ft nn nt) fun σ1 =>
+          afterFields (unifyFields G N D f σ fn ft nn nt) fun σ1 =>
             if isRootB σ1 v then bind G .recName f σ1 v (.name n args) else none
       | .name n args, .recordVar v fn ft =>
         match D.recordFields n args with
         | none => some (none, σ)
         | some (nn, nt) =>
-          afterFields (unifyFields G D f σ fn ft nn nt) fun σ1 =>
+          afterFields (unifyFields G N D f σ fn ft nn nt) fun σ1 =>
             if isRootB σ1 v then bind G .recName f σ1 v (.name n args) else none
       | .name n as, .name m bs =>
         if n ≠ m then some (none, σ) else
-        afterFields (unifyZip G D f σ as bs) fun σ1 => some (some (.name m bs), σ1)
+        afterFields (unifyZip G N D f σ as bs) fun σ1 => some (some (.name m bs), σ1)
       | .func ps r, .func qs s =>
-        afterFields (unifyZip G D f σ ps qs) fun σ1 =>
-          match unify G D f σ1 r s with
+        afterFields (unifyZip G N D f σ ps qs) fun σ1 =>
+          match unifyInner G N D f σ1 r s with
           | none => none
           | some (none, σ2) => some (none, σ2)
           | some (some _, σ2) => some (some (.func qs s), σ2)
@@ -286,13 +307,13 @@ def unify (G : SetArm → Guard) (D : Defs) : Nat → Store → Ty → Ty → Op
     | _, _ => none
 
 /-- `unify_fields`: `true` = `Some(new_fields)` (the callers drop the fields) -/
-def unifyFields (G : SetArm → Guard) (D : Defs) : Nat → Store → List Nat → List Ty → List Nat → List Ty → Option (Bool × Store)
+def unifyFields (G : SetArm → Guard) (N : Bool) (D : Defs) : Nat → Store → List Nat → List Ty → List Nat → List Ty → Option (Bool × Store)
   | 0, _, _, _, _, _ => none
   | f + 1, σ, an, aty, bn, bt =>
-    if an.length ≠ bn.length then some (false, σ) else unifyFieldsLoop G D f σ an aty bn bt
+    if an.length ≠ bn.length then some (false, σ) else unifyFieldsLoop G N D f σ an aty bn bt
 
 /-- the `for (name, a_ty) in a_fields` loop of `unify_fields` -/
-def unifyFieldsLoop (G : SetArm → Guard) (D : Defs) : Nat → Store → List Nat → List Ty → List Nat → List Ty → Option (Bool × Store)
+def unifyFieldsLoop (G : SetArm → Guard) (N : Bool) (D : Defs) : Nat → Store → List Nat → List Ty → List Nat → List Ty → Option (Bool × Store)
   | 0, _, _, _, _, _ => none
   | _ + 1, σ, [], _, _, _ => some (true, σ)
   | _ + 1, _, _ :: _, [], _, _ => none                  -- names / types out of step: not a `Vec` of pairs
@@ -303,21 +324,41 @@ def unifyFieldsLoop (G : SetArm → Guard) (D : Defs) : Nat → Store → List N
       match bt[idx]? with
       | none => none
       | some tb =>
-        match unify G D f σ t tb with
+        match unifyInner G N D f σ t tb with
         | none => none
         | some (none, σ1) => some (false, σ1)
-        | some (some _, σ1) => unifyFieldsLoop G D f σ1 an aty (bn.eraseIdx idx) (bt.eraseIdx idx)
+        | some (some _, σ1) => unifyFieldsLoop G N D f σ1 an aty (bn.eraseIdx idx) (bt.eraseIdx idx)
 
 /-- `for (a, b) in as.iter().zip(bs) { self.unify_inner(a, b)?; }` -/
-def unifyZip (G : SetArm → Guard) (D : Defs) : Nat → Store → List Ty → List Ty → Option (Bool × Store)
+def unifyZip (G : SetArm → Guard) (N : Bool) (D : Defs) : Nat → Store → List Ty → List Ty → Option (Bool × Store)
   | 0, _, _, _ => none
   | f + 1, σ, a :: as, b :: bs =>
-    match unify G D f σ a b with
+    match unifyInner G N D f σ a b with
     | none => none
     | some (none, σ1) => some (false, σ1)
-    | some (some _, σ1) => unifyZip G D f σ1 as bs
+    | some (some _, σ1) => unifyZip G N D f σ1 as bs
   | _ + 1, σ, _, _ => some (true, σ)
 end
+
+/-! ## `TypeChecker::unify` -/
+
+/-- `unify(expected a, found b)`, the entry point — the only caller of
+`unify_inner`. With `T` (the source has the early return): a found `!` fits any
+expected type, the answer is `resolve_type(a)` and nothing is bound. Otherwise
+`unify_inner(a, b)`; on `None` the error is built from `resolve_type(a)`,
+`resolve_type(b)` and rendered (`Type::display`: `walk`) from the store as
+`unify_inner` left it. -/
+def unify (G : SetArm → Guard) (N T : Bool) (D : Defs) (f : Nat) (σ : Store) (a b : Ty) :
+    Option (Option Ty × Store) :=
+  match resolveType f σ b with
+  | none => none
+  | some b' =>
+    match T, b' with
+    | true, .never =>
+      match resolveType f σ a with
+      | none => none
+      | some a' => some (some a', σ)
+    | _, _ => unifyInner G N D f σ a b
 
 /-! ## A traversal that looks at everything: `Type::display`, `TypeInfo::convert`, … -/
 
